@@ -151,15 +151,29 @@ def gen_fixed_layout(rng: random.Random):
         else:
             text = f"def ident(z): return z\n\ndef build(ds):\n{ind}return ident(ds.{op1}(lambda {v1}: {body_for(op1, rng, v1)}))\n"
         return text, "supported"
-    if r < 0.80:
+    if r < 0.78:
         # one-line def
         text = f"def sel({v1}): return {body_for(op1, rng, v1).replace(chr(10), ' ')}\n\ndef build(ds):\n{ind}return ds.{op1}(sel)\n"
         return text, "supported"
-    if r < 0.84:
+    if r < 0.85:
         # the line of the passed callable also holds the OTHER kind of definition: a lambda written inside a one-line
         # function (its line starts with `def`), a one-line function under a decorator that holds a lambda: right or raise
         b = body_for(op1, rng, v1).replace(chr(10), ' ')
-        kind = rng.choice(["lambda-in-one-line-def", "lambda-in-one-line-def", "decorated-def", "lambda-in-one-line-method"])
+        kind = rng.choice(["lambda-in-one-line-def", "lambda-in-one-line-def", "decorated-def", "lambda-in-one-line-method",
+                           "same-name-def-elsewhere", "same-name-def-elsewhere"])
+        if kind == "same-name-def-elsewhere":
+            # the passed one-line function is a local def (or a method); functions of the SAME NAME with another body stand
+            # above and below it in the file, at other nesting depths (seed C03-w7-2)
+            other1 = body_for(op1, rng, v1).replace(chr(10), ' ')
+            other2 = body_for(op1, rng, v1).replace(chr(10), ' ')
+            where = rng.choice(["local", "method"])
+            if where == "local":
+                text = (f"def sel({v1}): return {other1}\n\ndef build(ds):\n{ind}def sel({v1}): return {b}\n{ind}return ds.{op1}(sel)\n\n"
+                        f"def sel({v1}): return {other2}\n")
+            else:
+                text = (f"class K:\n{ind}@staticmethod\n{ind}def sel({v1}): return {b}\n\ndef build(ds):\n{ind}return ds.{op1}(K.sel)\n\n"
+                        f"def sel({v1}): return {other2}\n")
+            return text, "any"
         if kind == "lambda-in-one-line-def":
             text = f"def build(ds): return ds.{op1}(lambda {v1}: {b})\n"
         elif kind == "lambda-in-one-line-method":
